@@ -10,6 +10,8 @@ import (
 	cfedistributor "github.com/chain4energy/c4e-chain/x/cfedistributor"
 	distrtypes "github.com/chain4energy/c4e-chain/x/cfedistributor/types"
 	mintertypes "github.com/chain4energy/c4e-chain/x/cfeminter/types"
+	vestingtypes "github.com/chain4energy/c4e-chain/x/cfevesting/types"
+	sdk "github.com/cosmos/cosmos-sdk/types"
 )
 
 type tFailer struct{ t *testing.T }
@@ -64,5 +66,27 @@ func TestRegressC10(t *testing.T) {
 			t.Fatalf("MsgUpdateParams with mint denomination \"x\" was accepted")
 		}
 		st.Case(true, "regress: invalid mint denom")
+	}
+}
+
+func TestRegressC07(t *testing.T) {
+	st := StatsFor("C07")
+	// OV = 10^19+1, half of the period passed, split of 1 must release exactly 1 (fixed a687255)
+	for _, ovs := range []string{"10000000000000000001", "9999999999999999997", "30000000000000000001"} {
+		v := NewVestWorld(nil)
+		nowS := nsTime(v.NowNs).Unix()
+		sender := v.NextFresh()
+		ov := sdk.NewCoins(sdk.NewCoin(Denom, sdk.NewIntFromBigInt(bigFromStr(ovs))))
+		makeCVA(v, sender, ov, nowS-4, nowS+4, sdk.NewCoins())
+		locked := v.App.BankKeeper.LockedCoins(v.Ctx, sender)
+		res := v.Run(&vestingtypes.MsgSplitVesting{FromAddress: sender.String(), ToAddress: v.NextFresh().String(), Amount: sdk.NewCoins(sdk.NewInt64Coin(Denom, 1))})
+		if !res.OK() {
+			t.Fatalf("split rejected: %v", res.Err)
+		}
+		after := v.App.BankKeeper.LockedCoins(v.Ctx, sender)
+		if !locked.Sub(after...).IsEqual(sdk.NewCoins(sdk.NewInt64Coin(Denom, 1))) {
+			t.Fatalf("OV=%s: split of 1 released %s", ovs, locked.Sub(after...))
+		}
+		st.Case(true, "regress: split of 1 from OV "+ovs)
 	}
 }
